@@ -50,6 +50,13 @@ class Speller:
                 j = self.rnd.randrange(len(opts))
             self.covered.add((ctx, cl, j))
             out.append(opts[j])
+        self.nspelled = getattr(self, "nspelled", 0) + 1
+        if self.nspelled % 5 == 0 and out:
+            # every fifth input: one lexeme in another letter case (keywords and function names are ASCII case-insensitive
+            # in CSS; in WXML they are not, which makes the variant an unknown name - an input like any other)
+            k = self.nspelled // 5 % len(out)
+            w = out[k]
+            out[k] = [w.upper(), w.capitalize(), w.swapcase()][self.nspelled // 5 % 3]
         return "".join(out)
 
 
